@@ -1,6 +1,11 @@
 use crate::internal::{consts, MiniAllocator, ObjType, SectorInit};
 use std::io::{self, BufRead, Read, Seek, SeekFrom, Write};
+#[cfg(not(cfb_verif))]
 use std::sync::{Arc, RwLock, Weak};
+#[cfg(cfb_verif)]
+use crate::internal::sync::RwLock;
+#[cfg(cfb_verif)]
+use std::sync::{Arc, Weak};
 
 //===========================================================================//
 
